@@ -46,17 +46,23 @@ class Ctx:
                 (["--hash-chunking", "BuzHash", "--avg-chunk-size", "16384", "--min-chunk-size", "4096", "--max-chunk-size", "65536", "--rolling-window-size", "20"], 65536),
                 (["--hash-chunking", "RollSum", "--avg-chunk-size", "4096", "--min-chunk-size", "700", "--max-chunk-size", "16384", "--rolling-window-size", "64"], 16384),
             ]
+        self.giant = bulk == "giant"
+        if self.giant:
+            # chunks of 2.2 - 8 MiB (beyond tokio's 2 MiB file buffer and any 4 MiB staging): a dozen distinct chunks, one scenario
+            cfgs = [(["--hash-chunking", "RollSum", "--avg-chunk-size", "4194304", "--min-chunk-size", "2200000", "--max-chunk-size", "8388608", "--rolling-window-size", "64"], 8388608)]
         self.chunk_args, self.maxc = cfgs[cfgno % len(cfgs)]
         self.hl = [64, 8, 16][cfgno % 3]
         self.comp = [["--compression", "brotli", "--compression-level", "2"], ["--compression", "none"], ["--compression", "zstd", "--compression-level", "3"]][cfgno % 3]
+        if self.giant:
+            self.comp = ["--compression", "none"]
         # pool of natural chunks that ended by a hash trigger
-        stream = rnd.randbytes([3000000, 5000000, 1600000][cfgno % 3] if bulk else 200000)
+        stream = rnd.randbytes(52000000 if self.giant else [3000000, 5000000, 1600000][cfgno % 3] if bulk else 200000)
         d, _ = self.compress(stream)
         chunks = pydecode.source_chunks(d)
         self.pool = [stream[o:o + s] for (h, o, s) in chunks[:-1] if s < self.maxc]
         seen = set()
         self.pool = [c for c in self.pool if not (c in seen or seen.add(c))]
-        assert len(self.pool) >= 12, "too few natural chunks"
+        assert len(self.pool) >= (6 if self.giant else 12), "too few natural chunks"
 
     def compress(self, data):
         """archive of `data` under the context's configuration -> (decoded header, archive bytes); cached"""
@@ -161,6 +167,59 @@ def io_events(calls, out_path, arch_path):
     return evs
 
 
+def normalise_writes(evs, slots):
+    """Projection of output writes onto the source's chunk slots [(offset, length)], so that HOW a chunk reaches its place does not matter:
+    a write that is a concatenation of whole slots becomes one write per slot; pieces that lie inside one slot are gathered (any order) and
+    handed on as one write of the slot when they cover it exactly without overlapping; overlapping pieces and slots left incomplete are handed
+    on as they were written.  Nothing is judged here."""
+    by_off = {o: l for (o, l) in slots}
+    starts = sorted(by_off)
+    import bisect
+    out = []
+    pending = {}
+
+    def slot_of(off, ln):
+        i = bisect.bisect_right(starts, off) - 1
+        if i < 0:
+            return None
+        so = starts[i]
+        return so if off + ln <= so + by_off[so] else None
+
+    for e in evs:
+        if not (e["ev"] == "write" and e["role"] == "output" and e["len"] > 0):
+            out.append(e)
+            continue
+        off, ln = e["off"], e["len"]
+        if by_off.get(off) == ln:
+            out.append(e)
+            continue
+        # concatenation of whole slots?
+        parts, o = [], off
+        while o < off + ln and o in by_off and o + by_off[o] <= off + ln:
+            parts.append((o, by_off[o]))
+            o += by_off[o]
+        if parts and o == off + ln:
+            out.extend(dict(e, off=po, len=pl, split=len(parts)) for (po, pl) in parts)
+            continue
+        so = slot_of(off, ln)
+        if so is None:
+            out.append(e)
+            continue
+        p = pending.setdefault(so, {"pieces": [], "covered": 0, "raw": []})
+        if any(off < po + pl and po < off + ln for (po, pl) in p["pieces"]):
+            out.extend(pending.pop(so)["raw"])
+            out.append(e)
+            continue
+        p["pieces"].append((off, ln))
+        p["covered"] += ln
+        p["raw"].append(e)
+        if p["covered"] == by_off[so]:
+            out.append(dict(e, off=so, len=by_off[so], pieces=len(pending.pop(so)["pieces"])))
+    for so in sorted(pending):
+        out.extend(pending[so]["raw"])
+    return out
+
+
 def main():
     import argparse
     ap = argparse.ArgumentParser()
@@ -183,7 +242,7 @@ def main():
     base = os.path.join(a.dir, "l2_s%d" % a.shard)
     shutil.rmtree(base, ignore_errors=True)
     os.makedirs(base)
-    ctx = Ctx(a.bita, base, rnd, a.seed + a.shard, bulk=a.mode == "bulk")
+    ctx = Ctx(a.bita, base, rnd, a.seed + a.shard, bulk=("giant" if a.shard == 0 else True) if a.mode == "bulk" else False)
     srv, port = start_server()
     w = open(a.out, "w")
     nrun = 0
@@ -194,7 +253,7 @@ def main():
         # not TLC layouts but large synthesized ones: a source of some hundred natural chunks with duplicates, a prior output that is a
         # rotation / shuffle of it with junk, seeds of several MB in which the needed chunks come late (beyond 1 MiB and 4 MiB)
         scens = []
-        for j in range(a.every):       # --every = number of bulk scenarios per shard
+        for j in range(1 if ctx.giant else a.every):       # --every = number of bulk scenarios per shard
             scens.append({"bulk": True, "src": [], "prior": [], "seeds": []})
         a.every = 1
         a.shards_bulk = True
@@ -236,13 +295,16 @@ def main():
                 dense = list(set(picks))
                 rnd.shuffle(dense)
                 seeds = [b"".join(ctx.pool[i] for i in dense[: rnd.randint(len(dense) * 3 // 4, len(dense))])] + (seeds if rnd.random() < 0.3 else [])
-            sc = dict(sc, inplace=rnd.random() < 0.6)
+            if ctx.giant:
+                seeds = seeds[-1:] if rnd.random() < 0.5 else []
+            sc = dict(sc, inplace=rnd.random() < 0.6 or ctx.giant)
             if not sc["inplace"]:
                 prior = b""
         else:
             source, prior, seeds = build_files(ctx, sc)
         d, arch = ctx.compress(source)
         src_chunks = pydecode.source_chunks(d)
+        slots = [(o, s_) for (h, o, s_) in src_chunks]
         ids = {}
         for (h, o, s) in src_chunks:
             ids.setdefault(h, len(ids) + 1)
@@ -335,7 +397,7 @@ def main():
                 open(out, "wb").write(prior)
             code, msg, calls, http = run_once()
             nrun += 1
-            evs = [scen_ev] + [e for e in io_events(calls, out, ap_) if not (e["ev"] == "read" and e["role"] == "output")] + [{"ev": "http", "first": x[0], "last": x[1], "cut": x[2]} for x in http] + [after_ev(code, msg), {"ev": "done"}]
+            evs = [scen_ev] + [e for e in normalise_writes(io_events(calls, out, ap_), slots) if not (e["ev"] == "read" and e["role"] == "output")] + [{"ev": "http", "first": x[0], "last": x[1], "cut": x[2]} for x in http] + [after_ev(code, msg), {"ev": "done"}]
             for e in evs:
                 w.write(json.dumps(e) + "\n")
         elif a.mode == "httpfaults":
@@ -358,7 +420,7 @@ def main():
             args[:] = saved
             nrun += 1
             ev0 = dict(scen_ev, transport="http", httpfault={"budget": budget, "cuts": cuts})
-            evs = [ev0] + [e for e in io_events(calls, out, ap_) if e["role"] == "output"] + [{"ev": "http", "first": x[0], "last": x[1], "cut": x[2]} for x in http] + [after_ev(code, msg), {"ev": "done"}]
+            evs = [ev0] + [e for e in normalise_writes(io_events(calls, out, ap_), slots) if e["role"] == "output"] + [{"ev": "http", "first": x[0], "last": x[1], "cut": x[2]} for x in http] + [after_ev(code, msg), {"ev": "done"}]
             for e in evs:
                 w.write(json.dumps(e) + "\n")
         elif a.mode in ("plain", "stdin"):
@@ -366,7 +428,7 @@ def main():
                 open(out, "wb").write(prior)
             code, msg, calls, http = run_once()
             nrun += 1
-            evs = [scen_ev] + io_events(calls, out, ap_) + [{"ev": "http", "first": x[0], "last": x[1], "cut": x[2]} for x in http] + [after_ev(code, msg), {"ev": "done"}]
+            evs = [scen_ev] + normalise_writes(io_events(calls, out, ap_), slots) + [{"ev": "http", "first": x[0], "last": x[1], "cut": x[2]} for x in http] + [after_ev(code, msg), {"ev": "done"}]
             for e in evs:
                 w.write(json.dumps(e) + "\n")
         else:
@@ -410,7 +472,7 @@ def main():
                 args[:] = saved
                 ev0 = dict(scen_ev, fault=fc, writes=W, out_found=[[ids[h], o, s] for (h, o, s) in found2 if h in ids], inplace=True, first_exit=code, first_msg=msg,
                            prior_len=len(mid), kind="regular" if kind == "new" else kind)
-                evs = [ev0] + io_events(calls2, out, ap_) + [{"ev": "http", "first": x[0], "last": x[1], "cut": x[2]} for x in http2] + [after_ev(code2, msg2), {"ev": "done"}]
+                evs = [ev0] + normalise_writes(io_events(calls2, out, ap_), slots) + [{"ev": "http", "first": x[0], "last": x[1], "cut": x[2]} for x in http2] + [after_ev(code2, msg2), {"ev": "done"}]
                 for e in evs:
                     w.write(json.dumps(e) + "\n")
         if not os.environ.get("L2_KEEP"):
